@@ -212,7 +212,9 @@ def k_via_align(run, case):
     est["p"] = (s * (A[:3, :3] @ est["p"].T)).T + A[:3, 3]
     est["R"] = np.array([A[:3, :3] @ R for R in est["R"]])
     mode = "se3" if rng.random() < .5 else "xyzq"
-    t_ref, t_est = gen.make_evo(ref, mode, stamped=False), gen.make_evo(est, mode, stamped=False)
+    t_ref = gen.make_evo(ref, mode, stamped=False, flavour=gen.rand_flavour(rng))
+    t_est = gen.make_evo(est, mode, stamped=False, flavour=gen.rand_flavour(rng))
+    gen.age(rng, t_ref), gen.age(rng, t_est)
     seen = []
 
     def mk(orig):
